@@ -82,3 +82,13 @@ Example C01_nonvacuous :
       [Life (LPermDeleted c 281470698652161)];
       [] ].
 Proof. vm_compute. reflexivity. Qed.
+
+(* ---------- history level ---------- *)
+From Turn Require Import Common RelayCheck RelayProps RelayTrace.
+(* The predicate the correspondence evaluates on the IMPLEMENTATION's observed traces (Check/RelayProps.chk_C01_gate:
+   nothing vetoed or of the wrong family is installed; a datagram leaves toward a peer only for the owner's Send
+   indication / ChannelData, from its own relayed address, unmodified, through a permission / binding present before the
+   event) holds on EVERY trace of the model: every configuration whose relay IPs are of their own family, every history. *)
+Theorem C01_predicate_holds_on_every_model_trace : forall cfg ep h, cfg_relay_wf cfg -> chk_C01_gate (model_case cfg ep h) = true.
+Proof. exact chk_C01_gate_model. Qed.
+Print Assumptions C01_predicate_holds_on_every_model_trace.
